@@ -41,6 +41,10 @@ def run_witness(w):
                 if not (got or '').startswith(chk['value']): bad = True; why.append('event %d is %r, required prefix %r' % (chk['index'], got, chk['value']))
             elif t == 'no_event_prefix':
                 if any(e.startswith(chk['value']) for e in ev): bad = True; why.append('event with prefix %r present' % chk['value'])
+            elif t == 'statuses':
+                rs = [e for e in ev if e.startswith('resp ') or e == 'silent' or e.startswith('panic') or e.startswith('err')]
+                got = [resp_status(e) if e.startswith('resp ') else e for e in rs]
+                if got != chk['value']: bad = True; why.append('response statuses %r, required %r' % (got, chk['value']))
             elif t == 'count_prefix':
                 n = len([e for e in ev if e.startswith(chk['value'])])
                 if n != chk['count']: bad = True; why.append('%d events with prefix %r, required %d' % (n, chk['value'], chk['count']))
@@ -89,4 +93,45 @@ def gen_framing(pid, f):
                                 'expect': [{'type': 'count_prefix', 'value': 'resp 810a', 'count': 1}],
                                 'required': 'the frame is taken from exactly 24+body_length bytes, so the following noop is answered (or the connection is closed)',
                                 'what': w['what'], 'observed': r['run_a']}
+    return None
+
+# ------------------------------------------------------------------------------------------------
+# helpers to build request frames
+def f_set(key, val, flags=0, exp=0, cas=0, op=1, opaque=0):
+    return hdr(op, key=len(key), extras=8, body=8 + len(key) + len(val), cas=cas, opaque=opaque) + struct.pack('>II', flags, exp) + key + val
+def f_key(op, key, cas=0, opaque=0):
+    return hdr(op, key=len(key), body=len(key), cas=cas, opaque=opaque) + key
+def f_flush(delay=None, op=8):
+    return hdr(op) if delay is None else hdr(op, extras=4, body=4) + struct.pack('>I', delay)
+def f_delta(op, key, delta, initial=0, exp=0, cas=0, opaque=0):
+    return hdr(op, key=len(key), extras=20, body=20 + len(key), cas=cas, opaque=opaque) + struct.pack('>QQI', delta, initial, exp) + key
+def f_app(op, key, val, cas=0):
+    return hdr(op, key=len(key), body=len(key) + len(val), cas=cas) + key + val
+
+def resp_status(ev):
+    """status of the i-th response event (hex string after 'resp ')"""
+    b = bytes.fromhex(ev.split()[1])
+    return struct.unpack('>H', b[6:8])[0]
+def resp_cas(ev):
+    b = bytes.fromhex(ev.split()[1]); return struct.unpack('>Q', b[16:24])[0]
+
+def _responses(lines):
+    ev = replaytool.run_session(lines)
+    return [e for e in ev if e.startswith('resp ') or e == 'silent' or e.startswith('panic') or e.startswith('err')], ev
+
+# C02/C08 delete rule (kani/store_delete and everything above it): absent -> 1, cas 0 / matching -> 0 and gone,
+# stale -> 2 and still there
+@generator(r'(kani/store_delete|memc\.delete|handler\.delete|policy\.delete\.post_delete)')
+def gen_delete(pid, f):
+    cases = []
+    for absent_cas in (0, 5, 2**64 - 1):
+        cases.append((['feed ' + f_key(4, b'k', cas=absent_cas).hex()], [1], 'delete of an absent key with cas=%d must answer not found (0x0001)' % absent_cas))
+    cases.append((['feed ' + f_set(b'k', b'v').hex(), 'feed ' + f_key(4, b'k', cas=77).hex(), 'feed ' + f_key(0, b'k').hex()], [0, 2, 0], 'delete with a stale CAS answers key exists (0x0002) and leaves the item'))
+    cases.append((['feed ' + f_set(b'k', b'v').hex(), 'feed ' + f_key(4, b'k', cas=1).hex(), 'feed ' + f_key(0, b'k').hex()], [0, 0, 1], 'delete with the matching CAS removes the item'))
+    cases.append((['feed ' + f_set(b'k', b'v').hex(), 'feed ' + f_set(b'j', b'w').hex(), 'feed ' + f_key(4, b'k').hex(), 'feed ' + f_key(0, b'j').hex(), 'feed ' + f_key(0, b'k').hex()], [0, 0, 0, 0, 1], 'delete removes exactly the addressed key'))
+    for lines, want, what in cases:
+        rs, ev = _responses(lines)
+        got = [resp_status(e) if e.startswith('resp ') else e for e in rs]
+        if got != want:
+            return {'kind': 'session', 'lines': lines, 'expect': [{'type': 'statuses', 'value': want}], 'required': what, 'what': what, 'observed': ev}
     return None
